@@ -98,6 +98,8 @@ impl FlushWorker {
                     Arc::clone(&registry),
                     Arc::clone(&flush_coord_lock),
                 );
+                #[cfg(sneldb_verif)]
+                crate::verif::step("flush.start", &format!("\"shard\":{shard_id},\"seg\":{segment_id},\"empty\":{was_empty}"));
                 let flush_result = flusher.flush().await;
 
                 match &flush_result {
@@ -133,6 +135,8 @@ impl FlushWorker {
                             );
                         }
 
+                        #[cfg(sneldb_verif)]
+                        crate::verif::step("flush.written", &format!("\"shard\":{shard_id},\"seg\":{segment_id}"));
                         // Mark as written to disk
                         if track_lifecycle {
                             lifecycle.mark_written(segment_id).await;
@@ -164,6 +168,8 @@ impl FlushWorker {
                             let mut segs = segment_ids.write().unwrap();
                             if !segs.contains(&segment_name) {
                                 segs.push(segment_name.clone());
+                                #[cfg(sneldb_verif)]
+                                crate::verif::step("flush.published", &format!("\"shard\":{shard_id},\"seg\":{segment_id}"));
                                 if tracing::enabled!(tracing::Level::DEBUG) {
                                     debug!(
                                         target: "sneldb::flush",
@@ -202,6 +208,8 @@ impl FlushWorker {
                             }
                         }
 
+                        #[cfg(sneldb_verif)]
+                        crate::verif::step("flush.passive_cleared", &format!("\"shard\":{shard_id},\"seg\":{segment_id}"));
                         // Note: Passive buffer is now empty and will be filtered out by
                         // PassiveBufferSet::non_empty() in subsequent queries
 
@@ -216,6 +224,8 @@ impl FlushWorker {
                         }
                         let cleaner = WalCleaner::new(shard_id);
                         cleaner.cleanup_up_to(segment_id + 1);
+                        #[cfg(sneldb_verif)]
+                        crate::verif::step("flush.wal_cleaned", &format!("\"shard\":{shard_id},\"seg\":{segment_id}"));
                     }
                 }
 
@@ -242,6 +252,8 @@ impl FlushWorker {
             };
 
             self.flush_progress.mark_completed(flush_id);
+            #[cfg(sneldb_verif)]
+            crate::verif::step("flush.done", &format!("\"shard\":{},\"seg\":{segment_id},\"ok\":{}", self.shard_id, flush_result.is_ok()));
 
             // Always send completion signal, even on error/panic
             if let Some(completion) = completion {
